@@ -1,19 +1,23 @@
 #!/bin/bash
 # tools/trial.sh <patch.diff> <tier> <ID> [ID...]
-# Applies a seeded change to /repo, runs the given checks, reverts /repo.
-# Prints one line per check: ID exit=<code> <RESULT line>. Evidence files are
-# restored afterwards (a trial must not overwrite committed evidence).
+# Runs the given checks against a scratch worktree of /repo with a seeded
+# change applied (VERIF_REPO), leaving /repo, /verif/evidence and
+# /verif/replays untouched (results go to a scratch output directory).
+# Prints one line per check: ID exit=<code> <RESULT line>.
 set -u
 PATCH="$(readlink -f "$1")"; TIER="$2"; shift 2
 cd "$(dirname "$0")/.."
 VERIF="$(pwd)"
-if ! git -C /repo diff --quiet; then echo "refusing: /repo has uncommitted changes"; exit 2; fi
-restore() { git -C /repo checkout -- . ; git -C "$VERIF" checkout -- evidence 2>/dev/null; }
-trap restore EXIT
-git -C /repo apply "$PATCH" || { echo "patch does not apply"; exit 2; }
-( cd /repo && GOFLAGS=-mod=mod GOPROXY=off GOSUMDB=off GOTOOLCHAIN=local go build ./... ) || { echo "patched tree does not build"; exit 2; }
+WT="$(mktemp -u /tmp/trial.XXXXXX)"
+OUT="$(mktemp -d /tmp/trialout.XXXXXX)"
+cleanup() { git -C /repo worktree remove --force "$WT" 2>/dev/null; rm -rf "$WT" "$OUT"; }
+trap cleanup EXIT
+git -C /repo worktree add -q "$WT" HEAD || exit 2
+git -C "$WT" apply "$PATCH" || { echo "patch does not apply"; exit 2; }
+cp "$VERIF/known_findings.json" "$OUT/"
 for ID in "$@"; do
-  OUT="$(VERIF_SEED="${VERIF_SEED:-1}" timeout "${TRIAL_TIMEOUT:-1500}" ./run.sh "$ID" "$TIER" 2>&1)"; RC=$?
-  echo "$ID exit=$RC $(echo "$OUT" | grep -E '^RESULT|^INCONCLUSIVE|^HARNESS' | head -1 | cut -c1-220)"
-  echo "$OUT" | grep -E "oracle=" | head -3 | cut -c1-220
+  O="$(VERIF_REPO="$WT" VERIF_OUT="$OUT" VERIF_SEED="${VERIF_SEED:-1}" timeout "${TRIAL_TIMEOUT:-1500}" ./run.sh "$ID" "$TIER" 2>&1)"; RC=$?
+  echo "$ID exit=$RC $(echo "$O" | grep -E '^RESULT|^INCONCLUSIVE|^HARNESS' | head -1 | cut -c1-220)"
+  echo "$O" | grep -E "oracle=" | head -3 | cut -c1-220
+  if [ -n "${TRIAL_KEEP:-}" ]; then mkdir -p "$TRIAL_KEEP"; cp "$OUT"/replays/* "$TRIAL_KEEP"/ 2>/dev/null; fi
 done
